@@ -39,7 +39,14 @@ func (l *stubLogger) Error(msg string, args ...interface{}) {
 				}
 			}
 		}
-		simrt.Emit("panic-recovered", conn, 0, 0, 0, string(debug.Stack()), nil)
+		// only what is stable across runs: the panicking function and its
+		// file:line (goroutine numbers and argument words are not)
+		fn, where, inSUT := panicSite(string(debug.Stack()))
+		a := int64(0)
+		if inSUT {
+			a = 1
+		}
+		simrt.Emit("panic-recovered", conn, 0, a, 0, fn+" "+where, nil)
 		return
 	}
 	conn := 0
